@@ -204,8 +204,10 @@ class CameraViewPort:
                     f"origin must be a {VEC2I.btype.shape} if it is a numpy array"
                 )
         elif isinstance(origin, (list, tuple)):
-            if len(origin) != 2:
-                raise TypeError("origin must be of length 2 if it is a list or tuple")
+            if len(origin) != 2 or any(np.ndim(v) != 0 for v in origin):
+                raise TypeError(
+                    "origin must be two numbers if it is a list or tuple"
+                )
         else:
             raise TypeError("origin must be a numpy array, a list or a tuple")
 
@@ -215,8 +217,10 @@ class CameraViewPort:
                     f"size must be a {VEC2I.btype.shape} if it is a numpy array"
                 )
         elif isinstance(size, (list, tuple)):
-            if len(size) != 2:
-                raise TypeError("size must be of length 2 if it is a list or tuple")
+            if len(size) != 2 or any(np.ndim(v) != 0 for v in size):
+                raise TypeError(
+                    "size must be two numbers if it is a list or tuple"
+                )
         else:
             raise TypeError("size must be a numpy array, a list or a tuple")
 
